@@ -52,6 +52,11 @@ def expect(c):
             'absolutes': ['http://' + auth + targets[0]]}
 
 
+def expected_plain():
+    from drivers.websession import expected
+    return expected({'scheme': 'http', 'host': 'h2', 'port': 'def', 'path': 'a', 'creds': False})
+
+
 def text_class(c):
     odd = [k for k, plain in (('ui', 'none'), ('host', 'plain'), ('port', 'none'), ('path', 'p'), ('query', 'none'),
                               ('frag', 'none')) if c[k] != plain]
@@ -92,7 +97,20 @@ def run_one(sc):
     ascii_only = all(ord(ch) < 128 for ch in text)
     exp = expect(c)
     plain = {'scheme': 'http', 'host': 'h2', 'port': 'def', 'path': 'a', 'creds': False}
-    if use == 'start':
+    if use == 'referer':
+        # the text is the URL of the page that linked to a URL on ANOTHER host: what the processor puts into Referer
+        script = {'start': plain, 'steps': [{'status': 200}], 'maxred': 3}
+        from wpull.url import URLInfo
+        try:
+            parent = URLInfo.parse(text).url        # the table stores the normalized URL of the referring page
+        except ValueError:
+            parent = None
+        if parent is None:
+            ev, outcome = [{'e': 'outcome', 'v': 'error', 'detail': 'rejected'}], 'rejected'
+        else:
+            ev, outcome = X.run_script(script, referer_text=parent)
+        exps = [expected_plain()]
+    elif use == 'start':
         script = {'start': plain, 'steps': [{'status': 200}], 'maxred': 3}
         try:
             ev, outcome = X.run_script(script, start_text=text)
@@ -165,7 +183,9 @@ def run_text_cases(chk, quick):
     runs = []
     for c in cases:
         text = render(c)
-        for use in ('start', 'loc302', 'loc307'):
+        for use in ('start', 'loc302', 'loc307', 'referer'):
+            if use == 'referer' and (c['ui'] == 'none' or c['host'] != 'plain' or c['port'] == 'xdef'):
+                continue        # as a referring page: the URLs with user-info, on the ordinary host
             if use != 'start' and any(ord(ch) >= 128 for ch in text):
                 continue        # a Location field is ASCII; non-ASCII forms are only used as start URLs
             if use != 'start' and c['port'] == 'xdef':
